@@ -13,6 +13,14 @@ def attrInvalid : Nat := 2^31
 /-- style.go:40 -/
 def styleInvalid : Style := { attrs := attrInvalid }
 
+/-- THE SWITCH for the locked-neighbour repair (fixes/C13-wide-left-of-locked.patch): `false` = pinned tree (a wide rune in
+    the column left of a locked cell is written as a two-column glyph, tscreen.go:943), `true` once the patch is committed
+    in /repo: drawCell shows such a rune as a blank of width 1 (the policy of the last column) and LockRegion(…, false)
+    marks a wide rune just left of the unlocked region dirty so that it is drawn again.  The constant is only the
+    *default* of `DrawCfg.guardLocked`: both behaviours stay modelled, the theorems quantify over the configuration, and
+    the correspondence driver takes the variant from the case line (`+lg` after the entry name, see Driver/Draw.lean). -/
+def currentGuardsLockedNeighbour : Bool := false
+
 /-- static configuration of a screen as far as drawing is concerned -/
 structure DrawCfg where
   rw : Rune → Int
@@ -21,6 +29,13 @@ structure DrawCfg where
   hasCursorStyle : Nat → Bool := fun _ => false -- t.cursorStyles has an entry for this style (tscreen.go:979)
   hasCursorRGB : Bool := false                  -- t.cursorRGB ≠ "" (always, after prepareCursorStyles)
   cornerTrick : Bool                            -- ti.AutoMargin ∧ ti.DisableAutoMargin = "" ∧ ti.InsertChar ≠ ""  (tscreen.go:815)
+  guardLocked : Bool := currentGuardsLockedNeighbour  -- drawCell tests `t.cells.locked(x+1, y)` (repaired tree only)
+
+/-- the configurations the Layer-A invariant proofs of C01/C13 cover: no bottom-right insert-character trick, and the
+    pinned drawCell (no locked-neighbour guard).  For `guardLocked = true` see `Tcell.Props.C13` (repaired variant). -/
+structure DrawCfg.Plain (c : DrawCfg) : Prop where
+  ct : c.cornerTrick = false
+  ng : c.guardLocked = false
 
 /-- abstract commands emitted by the draw path, in order; `Render.render` turns each into bytes -/
 inductive Cmd where
@@ -51,6 +66,9 @@ structure Scr where
   cursorShaped : Bool := false   -- a non-default cursor shape has been sent
   cursorTinted : Bool := false   -- a cursor colour has been sent
 
+/-- repaired tree only: `CellBuffer.locked` (added to cell.go by fixes/C13-wide-left-of-locked.patch): in range and locked -/
+def Buf.locked (b : Buf) (x y : Int) : Bool := if b.inRange x y then (b.cells x y).lock else false
+
 namespace Scr
 
 /-- tscreen.go:1035 hideCursor -/
@@ -70,12 +88,17 @@ def cellText (c : DrawCfg) (w x : Int) (mainc : Rune) (combc : List Rune) (width
   let str := if width1 > 1 ∧ str = [63] then [63, 32] else str
   if x > w - width1 then ([32], 1) else (str, width1)
 
+/-- repaired tree only (fixes/C13-wide-left-of-locked.patch): `if x > t.w-width || (width > 1 && t.cells.locked(x+1, y))`
+    — `nl` = the guard is compiled in and the next column is locked: the wide rune is shown as a blank of width 1 -/
+def cellTextG (c : DrawCfg) (w x : Int) (mainc : Rune) (combc : List Rune) (width : Int) (nl : Bool) : List Nat × Int :=
+  if nl = true ∧ width > 1 then ([32], 1) else cellText c w x mainc combc width
+
 /-- painting part of drawCell for a dirty cell once the cursor is in place (tscreen.go:838-948) -/
 def paint (c : DrawCfg) (s : Scr) (x y : Int) : Scr × List Cmd × Int :=
   let (mainc, combc, style, width) := s.cells.getContent x y
   let style := if style = ({} : Style) then s.style else style
   let penCmds := if style ≠ s.curstyle then [Cmd.setPen style] else []
-  let (str, width2) := cellText c s.w x mainc combc width
+  let (str, width2) := cellTextG c s.w x mainc combc width (c.guardLocked && s.cells.locked (x + 1) y)
   let cx := if width2 > 1 then -1 else s.cx + width2
   ({ s with curstyle := style, cx := cx, cells := s.cells.setDirty x y false }, penCmds ++ [.put str width2], width2)
 
